@@ -25,7 +25,7 @@ func (c03) Assumptions() []string {
 		"the statement constrains successful starts only; how often a start fails is reported (counters) but not judged",
 	}
 }
-func (c03) NumCases(tier string) int      { return tierN(tier, 4000, 100000) }
+func (c03) NumCases(tier string) int      { return tierN(tier, 4000, 400000) }
 func (c03) MinNontrivial(tier string) int { return tierN(tier, 300, 5000) }
 
 var c03Timings = []world.SubPlan{
